@@ -13,8 +13,8 @@ VARIABLES l, verdict
 
 InModel(L) == /\ \A k \in 1..Len(L.offs) : Len(L.offs[k]) >= 1
               /\ Len(L.offs[1]) >= L.off + L.len + 1
-              /\ (L.bitmap = <<>> \/ Len(L.bitmap) >= L.off + L.len)
-              /\ \A i \in 1..L.len : (L.bitmap # <<>> /\ At0(L.bitmap, L.off + i - 1) = 0)
+              /\ (L.bitmap = <<>> \/ 8 * Len(L.bitmap) >= L.off + L.len)
+              /\ \A i \in 1..L.len : (L.bitmap # <<>> /\ Bit(L.bitmap, L.off + i - 1) = 0)
                                       => At0(L.offs[1], L.off + i - 1) = At0(L.offs[1], L.off + i)
 Judge(r) ==
     LET L == [off |-> r.off, len |-> r.len, bitmap |-> r.bitmap, offs |-> r.offs, values |-> r.values] IN
